@@ -1,5 +1,6 @@
 import Uft.Model.Demangle
 import Uft.Lemmas.DemangleSpec
+import Uft.Lemmas.DemangleMangle
 /-!
 # C13 — Symbol demangling is total, safe and correct for compiler-produced names
 
@@ -202,5 +203,37 @@ example : demangle Fixes.all #[95, 90, 84] = .str [95, 90, 84] := by decide
 example : demangle Fixes.all #[95, 90, 49, 102, 68] = .str [95, 90, 49, 102, 68] := by decide
 example : demangle Fixes.all #[95, 90, 51, 97, 36, 67] = .str [97, 97, 36, 67] := by decide
 example : demangle Fixes.all #[95, 90, 85, 116, 95] = .str [95, 90, 85, 116, 95] := by decide
+
+/-! ## partial correctness: demangle ∘ mangle -/
+
+/-- **demangle ∘ mangle = qualified name** for the declarations `Decl` (Lemmas/DemangleMangle.lean):
+    a function, constructor `C<k>`, destructor `D<k>` or member operator (any entry of the generated
+    `ops[]` table except the conversion and literal operators) in one or more nested namespaces / classes
+    with builtin parameter types (codes of the generated `types[]` table).  `mangle d` is the Itanium
+    encoding `_ZN <len><id>… [C<k>|D<k>|<op>] E <type>*`; identifiers are arbitrary byte strings of
+    length `< 2^31` that are non-empty, do not start with a digit, contain no `$` (and no `:` for the class
+    name of a constructor / destructor) and are not of the form `h<16 hex digits>` (which the code takes
+    for a Rust hash).  The result is `a::b::f`, `a::K::K`, `a::K::~K`, `a::K::operator+`, …
+
+    Not covered by this theorem (covered by the compiled corpus of the check instead): non-nested names,
+    template arguments, substitutions, non-builtin parameter types, conversion / literal operators. -/
+theorem c13_mangle_demangle_partial (d : Decl) (h : d.Ok) :
+    demangle Fixes.all (mangle d).toArray = .str (qualifiedName d) := demangle_mangle d h
+
+/-- non-vacuity: `ns::K::K(int)`, i.e. `_ZN2ns1KC1Ei`, satisfies the hypotheses, and the theorem gives `ns::K::K` -/
+def declExample : Decl := { scope := [[110, 115]], name := [75], leaf := .ctor 49, params := [105] }
+
+theorem declExample_ok : declExample.Ok where
+  ids := by
+    intro id hid
+    simp only [Decl.path, declExample, List.cons_append, List.nil_append, List.mem_cons, List.not_mem_nil, or_false] at hid
+    rcases hid with rfl | rfl <;> exact ⟨by decide, by decide, by decide, by decide, by decide⟩
+  nocolon := by decide
+  leaf := by simp [declExample, Leaf.Ok]; decide
+  params := by decide
+
+example : mangle declExample = [95, 90, 78, 50, 110, 115, 49, 75, 67, 49, 69, 105] := by decide
+example : demangle Fixes.all (mangle declExample).toArray = .str [110, 115, 58, 58, 75, 58, 58, 75] :=
+  c13_mangle_demangle_partial declExample declExample_ok
 
 end Uft.Demangle
